@@ -21,7 +21,7 @@ func init() {
 		Prop:   "C02",
 		Run:    run,
 		Replay: replay,
-		Rule: "E1 over location-path ASTs: root kind (absolute, relative, current()-rooted, deref(Q)-rooted) x step sequences (a, b, p:a, '..', '.') x predicates [key = operand] (keys k, j, p:k; operands literal, number, function result, absolute / current()-rooted / '..'-rooted predicate-free paths) x embedding (alone, = 'v', string(), not(), path = path) x 4 context nodes; each expression is compiled and run by the real engine on a recording virtual data tree whose node values are node identities. " +
+		Rule: "E1 over location-path ASTs: root kind (absolute, relative, current()-rooted, deref(Q)-rooted) x step sequences (a, b, p:a, '..', '.') x predicates [key = operand] (keys k, j, p:k; operands literal, number, function result, absolute / current()-rooted / '..'-rooted predicate-free paths) x embedding (alone, = 'v', string(), not(), path = path) x 4 context nodes; each expression is compiled once and the same machine is run on the 4 context positions in turn (the last run is also compared, raw requests included, with a machine compiled for that run alone); each run is executed by the real engine on a recording virtual data tree whose node values are node identities. " +
 			"A reference designator computes from the XPath 1.0 AST the expected sequence of data-tree requests (per Navigate: root flag and designated node; FollowLeafRef sources; GetValue targets) and the expected value; all must agree. Non-trivial = the path has >=2 steps, a predicate or a function root.",
 		Bound: map[string]string{
 			"quick":    "<=2 steps, <=1 predicate per step (2 predicates in both orders on step 'a'), all 7 operand kinds, 6 root kinds, 5 embeddings, 4 contexts",
@@ -212,8 +212,19 @@ var contexts = [][]mock.Elem{
 }
 
 type rec struct {
-	Expr string `json:"expr"`
-	Ctx  int    `json:"ctx"`
+	Expr  string `json:"expr"`
+	Ctx   int    `json:"ctx"`
+	Prior []int  `json:"prior,omitempty"` // context positions the same machine was run on before
+}
+
+// session holds the one machine compiled for an expression; it is run on
+// every context position in turn ("all context positions": a run must not
+// depend on the runs before it).
+type session struct {
+	m     *xpath.Machine
+	cerr  error
+	done  bool
+	prior []int
 }
 
 // pathShape abstracts an expression for the finding key: names dropped,
@@ -257,9 +268,16 @@ func embedding(src string) string {
 	return "path"
 }
 
-func check(src string, ci int) (vs []engine.Violation, outcome string, nontrivial bool) {
+func check(src string, ci int, ss *session) (vs []engine.Violation, outcome string, nontrivial bool) {
 	mk := func(key, detail string) {
-		vs = append(vs, engine.Violation{Key: key, Witness: fmt.Sprintf("%s @ctx %s", src, mock.Render(contexts[ci])), Detail: detail, Harness: "path", Replay: engine.JSON(rec{src, ci})})
+		w := fmt.Sprintf("%s @ctx %s", src, mock.Render(contexts[ci]))
+		if len(ss.prior) > 0 {
+			w += fmt.Sprintf(" (same machine run before on contexts %v)", ss.prior)
+			if fresh, _, _ := check(src, ci, &session{}); len(fresh) == 0 && !strings.HasPrefix(key, "earlier-run-") {
+				key = "earlier-run-changes-" + key // a fresh machine is right: state kept in the machine
+			}
+		}
+		vs = append(vs, engine.Violation{Key: key, Witness: w, Detail: detail, Harness: "path", Replay: engine.JSON(rec{src, ci, ss.prior})})
 	}
 	n, err := xp10.Parse(src)
 	if err != nil {
@@ -271,7 +289,11 @@ func check(src string, ci int) (vs []engine.Violation, outcome string, nontrivia
 	if err != nil || d.unsupported != "" {
 		return nil, "unsupported-by-reference", false
 	}
-	m, cerr := expr.NewExprMachine(src, mapFn)
+	if !ss.done {
+		ss.m, ss.cerr = expr.NewExprMachine(src, mapFn)
+		ss.done = true
+	}
+	m, cerr := ss.m, ss.cerr
 	if cerr != nil {
 		mk("does-not-compile:"+pathShape(src), strings.SplitN(cerr.Error(), "\n", 2)[0])
 		return vs, "compile-error", true
@@ -279,6 +301,20 @@ func check(src string, ci int) (vs []engine.Violation, outcome string, nontrivia
 	tree.Reset()
 	o := xpx.RunMachine(m, tree.At(contexts[ci]...))
 	got := observed(tree)
+	defer func() { ss.prior = append(ss.prior, ci) }()
+	if len(ss.prior) > 0 && ci == len(contexts)-1 {
+		// differential: the machine that has run before must send the data tree the very
+		// same requests (raw paths included) as a machine compiled for this run alone
+		used := strings.Join(tree.CallStrings(), " ; ")
+		if fm, ferr := expr.NewExprMachine(src, mapFn); ferr == nil {
+			tree.Reset()
+			fo := xpx.RunMachine(fm, tree.At(contexts[ci]...))
+			if fresh := strings.Join(tree.CallStrings(), " ; "); fresh != used || fo.String() != o.String() {
+				mk("earlier-run-changes-raw-requests", fmt.Sprintf("fresh machine: %s -> %s ; reused machine: %s -> %s", fresh, fo, used, o))
+				return vs, "reuse-differs", true
+			}
+		}
+	}
 	ws, gs := fmt.Sprint(d.events), fmt.Sprint(got)
 	// root flag -1 means "not compared"
 	same := len(d.events) == len(got)
@@ -359,12 +395,13 @@ func run(c *engine.Ctx) {
 		if !c.Owns(src) {
 			return
 		}
+		ss := &session{}
 		for ci := range contexts {
 			if !c.Case(fmt.Sprintf("%s@%d", src, ci)) {
 				continue
 			}
 			c.Add("states", 1)
-			vs, outcome, nt := check(src, ci)
+			vs, outcome, nt := check(src, ci, ss)
 			c.Outcome(outcome)
 			if nt {
 				c.Nontrivial()
@@ -440,7 +477,13 @@ func replay(c *engine.Ctx, sub string, raw json.RawMessage) []engine.Violation {
 	if json.Unmarshal(raw, &r) != nil || r.Ctx < 0 || r.Ctx >= len(contexts) {
 		return []engine.Violation{{Key: "harness-bad-replay-file"}}
 	}
-	vs, _, _ := check(r.Expr, r.Ctx)
+	ss := &session{}
+	for _, p := range r.Prior {
+		if p >= 0 && p < len(contexts) {
+			check(r.Expr, p, ss)
+		}
+	}
+	vs, _, _ := check(r.Expr, r.Ctx, ss)
 	return vs
 }
 
